@@ -467,7 +467,7 @@ def eval_reduce(case):
                     break
         elif not viol:
             viol.append(("reduce/no-convergence", "lock-step simulation did not finish", None))
-        if ncoll == 0 and size > 1 and not case.get("nested"):
+        if ncoll == 0 and size > 1 and not case.get("nested") and not viol:
             raise isolation.HarnessError("no collective call intercepted: seam lost")
         return {"nontrivial": size > 1, "outcome": [case["target"], size, ncoll, bool(case.get("nested")),
                                                     float(numpy.round(numpy.abs(serial).sum(), 9))],
